@@ -16,14 +16,14 @@ static int sn_hexval(long c) {
 static URI_CHAR sn_hexup(int v) { return (URI_CHAR)(v < 10 ? '0' + v : 'A' + (v - 10)); }
 static URI_CHAR sn_lower(URI_CHAR c) { return (c >= _UT('A') && c <= _UT('Z')) ? (URI_CHAR)(c + (_UT('a') - _UT('A'))) : c; }
 
-struct sn_buf { URI_CHAR c[VL > 0 ? VL : 1]; int len; };   /* len == -1: absent */
+#define sn_buf sv_txt   /* same representation */
 
 /* every '%' is followed by two hex digits (what the parser guarantees for every component) */
 static int sn_pct_legal(const struct sv_txt *t) {
 	int i;
-	for (i = 0; i < VL; i++) if (i < t->len && t->p[i] == _UT('%')) {
+	for (i = 0; i < VL; i++) if (i < t->len && t->c[i] == _UT('%')) {
 		if (i + 2 >= t->len) return 0;
-		if (sn_hexval(t->p[i + 1]) < 0 || sn_hexval(t->p[i + 2]) < 0) return 0;
+		if (sn_hexval(t->c[i + 1]) < 0 || sn_hexval(t->c[i + 2]) < 0) return 0;
 	}
 	return 1;
 }
@@ -32,12 +32,13 @@ static int sn_pct_legal(const struct sv_txt *t) {
  * lowerRest: additionally lower-case every character that is not part of a percent-encoding (scheme, host) */
 static void spec_norm_text(struct sn_buf *out, const struct sv_txt *in, int fixPct, int lowerRest) {
 	int i = 0, n = 0, k;
+	*out = sv_empty();
 	if (in->len < 0) { out->len = -1; return; }
 	for (k = 0; k < VL; k++) {
 		if (i < in->len) {
-			URI_CHAR c = in->p[i];
-			if (fixPct && c == _UT('%') && i + 2 < in->len && sn_hexval(in->p[i + 1]) >= 0 && sn_hexval(in->p[i + 2]) >= 0) {
-				int code = 16 * sn_hexval(in->p[i + 1]) + sn_hexval(in->p[i + 2]);
+			URI_CHAR c = in->c[i];
+			if (fixPct && c == _UT('%') && i + 2 < in->len && sn_hexval(in->c[i + 1]) >= 0 && sn_hexval(in->c[i + 2]) >= 0) {
+				int code = 16 * sn_hexval(in->c[i + 1]) + sn_hexval(in->c[i + 2]);
 				if (sn_is_unreserved(code)) {
 					out->c[n++] = lowerRest ? sn_lower((URI_CHAR)code) : (URI_CHAR)code;
 				} else {
@@ -52,13 +53,7 @@ static void spec_norm_text(struct sn_buf *out, const struct sv_txt *in, int fixP
 	}
 	out->len = n;
 }
-static int sn_eq(const struct sn_buf *b, const struct sv_txt *t) {
-	int i;
-	if (b->len != t->len) return 0;
-	for (i = 0; i < VL; i++) if (i < b->len && b->c[i] != t->p[i]) return 0;
-	return 1;
-}
-static struct sv_txt sn_txt(const struct sn_buf *b) { struct sv_txt t; t.p = b->c; t.len = b->len; return t; }
+static struct sv_txt sn_txt(const struct sn_buf *b) { return *b; }
 
 /* 6.2.2.3 path segment normalization of a whole view: percent-encoding per segment, then dot-segment removal that
  * keeps only the leading ".." run of a relative-path reference (no scheme, no authority, path not rooted).
@@ -75,7 +70,7 @@ static void spec_norm_path(struct sv_path *out, struct sn_buf store[SV_MAXSEG], 
 	spec_remove_dots(out, &fixed, relative);
 	if (relative && out->n > 0 && out->n < SV_MAXSEG && sv_contains(&out->seg[0], _UT(':'))) {
 		for (i = SV_MAXSEG - 1; i > 0; i--) out->seg[i] = out->seg[i - 1];
-		out->seg[0].p = sv_dot; out->seg[0].len = 1; out->n++;
+		out->seg[0] = sv_dot_txt(); out->n++;
 	}
 }
 /* path text is empty */
